@@ -1,4 +1,5 @@
 import Swat4.Drv.RepCommon
+import Swat4.Drv.UCRun
 import Swat4.Spec.ReporterSpec
 /-!
 Driver side of C04: `C04 hist <ops> => (<outcome> <dump>)*`.
@@ -33,7 +34,30 @@ def oracle : List StepRec → Option Nat → Nat → Option Nat
     else if !r.same then none
     else oracle rs none (i + 1)
 
+/-- `C04 ucf <init> <clients> <events>`: a report under storage faults (the reportserver use case driven through the
+scheduler).  Oracle: a report that is acknowledged (the use case returned nil, so the handler sends the reply)
+has stored the server and bound the instance id to it. -/
+def handleFault (initS clientS : String) (out : List String) : Verdict :=
+  match kv out "eff", kv out "calls", kv out "res", kv out "dump", modelRun {} (fun _ => 0) initS clientS ((kv out "eff").getD "-") with
+  | some _, some icalls, some ires, some idump, some m =>
+    let (same, dinfo) := diffInfo m icalls ires idump
+    let results := ires.splitOn ";"
+    let lines := (idump.splitOn ";").map (·.splitOn ",")
+    let ok := (enumFrom 0 m.specs).all fun (x : Nat × USpec) =>
+      match x.2 with
+      | .report a _ id _ _ =>
+        if results.getD x.1 "" == "ok" then
+          (lines.any fun l => match l with | "SV" :: a' :: _ => a' == a.render | _ => false) &&
+          (lines.any fun l => match l with | ["IN", id', a'] => id' == renderId id && a' == a.render | _ => false)
+        else true
+      | _ => true
+    verdict same ok (dinfo ++ (cond ok "" "sig=acknowledged-but-not-registered"))
+  | _, _, _, _, _ => .bad "C04 ucf parse"
+
 def handle (args out : List String) : Verdict :=
+  match args with
+  | ["ucf", initS, clientS, _] => handleFault initS clientS out
+  | _ =>
   match records args out with
   | none => .bad "C04 shape"
   | some recs =>
